@@ -436,7 +436,9 @@ fn main() {
     // the last tenth (extra runs, so that the earlier ones keep their configurations): Runner runs whose HOOK CHANGES THE
     // E-GRAPH - it adds an isolated number literal `1000 + k` in iteration k (no left side matches a lone leaf, so saturation
     // is not affected).  What the report and the limit checks say must be true of the e-graph as the hook left it (C15n).
-    for run in 0..runs + runs / 10 {
+    // (they come FIRST in time: the recorder gives up after seven runs that were abandoned as too slow, which on a busy machine
+    // happens before the last index is reached)
+    for run in (runs..runs + runs / 10).chain(0..runs) {
         let hook_mut = run >= runs;
         // every run draws from its own stream: adding a fixed run, or a new random choice inside a run, does not
         // change what the other runs do (a seeded change once escaped because the stream had moved)
